@@ -3,21 +3,19 @@
    Model/TimerRun.v (compute_missed, _dispatch_timers_run, _program, configure/arm/disarm/resume, latch).
    Both are tied to the library by the white-box correspondence (harness/c11_heap.c).
 
-   Proved for every population and every history: the heap part (1-5), compute_missed (6-7), and the run / program /
-   configure / latch mechanisms (8-12) each on its own.
-   NOT proved (hence the `_partial` names): the composition over whole histories of the TimerRun state machine, i.e.
-     forall reachable state, every heap tidx satisfies Inv w.r.t. { t | armed t /\ ident t = tidx }   [*]
-   and from it the full statement
-     "an armed, unsuspended, uncancelled timer with target <= now implies needs_program \/ dirty \/ the kernel timer
-      of its heap is armed with an expiry <= its target" (always fires), and "sum of reported counts <= boundaries
-      passed since the configured start" over several fires.
-   [*] needs the frame lemma that remove/update read the key of the moved timers only (the key of the timer being
-   removed / re-keyed has already been overwritten by compute_missed / configure when arm/disarm run).  C11_run_fixpoint
-   therefore takes Inv of the final heap as a hypothesis; C11_heap_inv_preserved discharges it for every sequence of heap
-   operations with stable keys.  The arithmetic of _dispatch_timer_config_create and _dispatch_after (source.c) is
-   not modelled: its guarantees (1 <= target, now < 2^63, interval >= 1) are hypotheses of 6, 7 and 12. *)
+   Proved for every population and every history: the heap (1-5), compute_missed (6-7), never early (8), the state
+   invariant of the whole machine over every reachable state and the run fixpoint (9), programming / the manager's pass /
+   ALWAYS FIRES as an invariant of every reachable state (10-10c), set_timer replaces (11), the arithmetic of
+   dispatch_source_set_timer and dispatch_after incl. the out-of-range `when` (13-14).
+   Conditional on termination flags: 9 (run) and 10b (pass) speak about runs / passes that have left their loop
+   (the boolean returned by the fuel-indexed model functions); that the fuel used by the model always suffices is
+   validated by the correspondence (flag compared on every run), not proved.
+   12 covers one invocation, 12b every history of fires and invocations of one configuration (clamp at LONG_MAX
+   excluded: impossible below 2^63 ns).
+   Out of the model: timerfd/epoll delivering the expiry, the hop of the fired source to its target queue (C15/C01),
+   DISPATCH_SOURCE_TYPE_INTERVAL's _dispatch_interval_config_create. *)
 From Coq Require Import ZArith List Bool.
-From Verif Require Import Word Gen_consts Gen_timer Heap TimerRun Heap_proofs TimerRun_proofs.
+From Verif Require Import Word Gen_consts Gen_time Gen_timer Time Time_proofs Heap TimerRun Heap_proofs TimerRun_proofs TimerSys_proofs.
 Import ListNotations.
 Local Open Scope Z_scope.
 
@@ -47,7 +45,8 @@ Theorem C11_insert : forall key S h dt qos,
   Inv key S h -> ~ S dt -> dt <> 0 -> h_count h + 2 <= CAPMAX ->
   let h' := insert key h dt qos in
   Inv key (fun u => u = dt \/ S u) h' /\ h_count h' = h_count h + 2 /\ np_ok h h' /\
-  (forall g u, ~ S u -> u <> dt -> h_ent h' g u = h_ent h g u).
+  (forall g u, ~ S u -> u <> dt -> h_ent h' g u = h_ent h g u) /\
+  (h_np h' = true \/ (h_slot h' 0 = h_slot h 0 /\ h_slot h' 0 <> dt)).
 Proof. exact insert_inv. Qed.
 Print Assumptions C11_insert.
 
@@ -63,7 +62,9 @@ Print Assumptions C11_remove.
 Theorem C11_update : forall key S h dt key0,
   Inv key0 S h -> S dt -> (forall g u, u <> dt -> key g u = key0 g u) ->
   Inv key S (update key h dt) /\ np_ok h (update key h dt) /\
-  (forall g u, ~ S u -> h_ent (update key h dt) g u = h_ent h g u).
+  (forall g u, ~ S u -> h_ent (update key h dt) g u = h_ent h g u) /\
+  (h_np (update key h dt) = true \/
+   (h_slot (update key h dt) 0 = h_slot h 0 /\ h_slot (update key h dt) 0 <> dt)).
 Proof. exact update_inv. Qed.
 Print Assumptions C11_update.
 
@@ -126,18 +127,36 @@ Theorem C11_never_early : forall fuel st tidx now ev st' ev' fin,
 Proof. exact run_never_early. Qed.
 Print Assumptions C11_never_early.
 
-(* 9. run fixpoint (partial: Inv of the final heap is a hypothesis, see the header) *)
-Theorem C11_run_fixpoint_partial : forall st tidx now st' ev S,
-  timers_run st tidx now = (st', ev, true) ->
-  Inv (keyof (s_timers st')) S (s_heaps st' tidx) ->
-  forall t, S t -> now < t_target (tm st' t).
-Proof. exact run_fixpoint. Qed.
-Print Assumptions C11_run_fixpoint_partial.
+(* 9. the state invariant of the whole machine: in EVERY state reachable by the operations of the timer machinery
+   issued under their callers' guards (any number N <= 2^30 - 12 of timer records, any interleaving of create / set_timer /
+   register / configure / resume / cancel / suspend / latch / run / program / manager pass), every heap satisfies the
+   heap invariant w.r.t. exactly the armed timers of its clock, a timer with the DISARMED marker is not in a heap, and
+   an armed timer has a target below INT64_MAX *)
+Theorem C11_state_invariant : forall N n ops,
+  0 <= N /\ 2 * N + 2 <= CAPMAX ->
+  valid_run N n init_state ops -> GInv N (run_ops n init_state ops).
+Proof. exact state_invariant_reachable. Qed.
+Print Assumptions C11_state_invariant.
+
+(* the frame fact the composition rests on: removing a timer never reads that timer's key *)
+Theorem C11_remove_key_frame : forall key0 key S h dt,
+  Inv key0 S h -> S dt -> (forall g u, u <> dt -> key g u = key0 g u) ->
+  remove key h dt = remove key0 h dt.
+Proof. exact remove_ext. Qed.
+Print Assumptions C11_remove_key_frame.
+
+(* run fixpoint: after _dispatch_timers_run has left its loop, no armed timer of that heap is due *)
+Theorem C11_run_fixpoint : forall N st tidx now st' ev,
+  0 <= N /\ 2 * N + 2 <= CAPMAX ->
+  GInv N st -> timers_run st tidx now = (st', ev, true) ->
+  GInv N st' /\ forall t, member st' tidx t -> now < t_target (tm st' t).
+Proof. exact run_fixpoint_sys. Qed.
+Print Assumptions C11_run_fixpoint.
 
 (* 10. programming: needs_program is cleared only by programming the kernel timer to the minimum target (or marking
    the heap dirty when that target is already due, or deleting the kernel timer when the heap is empty); with np_ok in
    C11_insert/remove/update: whenever a min slot changes, needs_program is set *)
-Theorem C11_program_min_partial : forall st tidx now,
+Theorem C11_program_min : forall st tidx now,
   0 <= now < T63 ->
   let m := h_slot (s_heaps st tidx) 0 in
   let st' := fst (program st tidx now) in
@@ -148,7 +167,35 @@ Theorem C11_program_min_partial : forall st tidx now,
   (m <> 0 -> t_target (tm st m) <= now -> s_dirty st' = true /\ s_harmed st' tidx = false) /\
   (m = 0 -> s_harmed st' tidx = false /\ (s_harmed st tidx = true -> s_ktimer st' tidx = -1)).
 Proof. exact program_min. Qed.
-Print Assumptions C11_program_min_partial.
+Print Assumptions C11_program_min.
+
+(* 10b. the manager's pass _dispatch_event_loop_drain_timers (run every heap, clear the dirty bits, program every heap that
+   needs it, repeat while dirty): when it returns, for every clock needs_program is clear, the kernel timer is armed at
+   exactly the minimum target (kernel_ok), and no armed timer is due at the cached clock readings *)
+Theorem C11_manager_pass : forall N, 0 <= N /\ 2 * N + 2 <= CAPMAX ->
+  forall fuel st nows st' ev calls,
+  (forall i, 0 <= i < 3 -> 0 <= nows i < T63) -> SInv N st ->
+  drain fuel st nows [] [] = (st', ev, calls, true) ->
+  SInv N st' /\ s_dirty st' = false /\
+  forall i, 0 <= i < 3 ->
+    npb st' i = false /\ kernel_ok st' i /\ forall t, member st' i t -> nows i < t_target (tm st' t).
+Proof. exact drain_Sys. Qed.
+Print Assumptions C11_manager_pass.
+
+(* 10c. ALWAYS FIRES, as the invariant it is: in every state reachable from boot by client / source-side operations
+   (create, set_timer, register, configure, resume, cancel, suspend, latch), kernel timer expiries and manager passes in
+   any order, for any population of at most N timer records: an armed timer (= uncancelled, not held back by a suspended
+   source, start time below FOREVER) is covered by a pending manager pass (dirty bits set) or by the kernel timer of its
+   clock, armed with an expiry <= the timer's target.  With 10b: after the pass, the second alternative holds and the
+   target is in the future; with 8: when the kernel timer expires and the manager runs, the timer fires.
+   (Delivery of the expiry by timerfd/epoll and the scheduling of the manager thread are outside the model.) *)
+Theorem C11_always_fires : forall N n l t i,
+  0 <= N /\ 2 * N + 2 <= CAPMAX -> svalid N n init_state l -> 0 <= i < 3 ->
+  let st := fold_left (sstep n) l init_state in
+  member st i t ->
+  s_dirty st = true \/ (s_harmed st i = true /\ s_ktimer st i <= t_target (tm st t)).
+Proof. exact always_fires_reachable. Qed.
+Print Assumptions C11_always_fires.
 
 (* 11. dispatch_source_set_timer: the timer follows only the new settings *)
 Theorem C11_set_timer_replaces : forall st t c tg dl itv,
@@ -160,7 +207,7 @@ Proof. exact configure_replaces. Qed.
 Print Assumptions C11_set_timer_replaces.
 
 (* 12. the count reported by dispatch_source_get_data at one invocation = accumulated count + boundaries passed *)
-Theorem C11_count_bound_partial : forall st t now,
+Theorem C11_latch_count : forall st t now,
   let x := tm st t in
   let prev := t_pending x in
   0 <= prev < T64 ->
@@ -173,7 +220,61 @@ Theorem C11_count_bound_partial : forall st t now,
    (t_interval x < INT64_MAX -> now < t_target (tm (fst (latch st t now)) t))) /\
   t_pending (tm (fst (latch st t now)) t) = 0.
 Proof. exact latch_count. Qed.
-Print Assumptions C11_count_bound_partial.
+Print Assumptions C11_latch_count.
+
+(* 12b. count bound over SEVERAL fires: for every history of fires (at clock readings at which the target has been
+   reached, cf. 8) and handler invocations of a repeating timer configured with (start, interval), with the handler
+   lagging arbitrarily behind: the sum of the counts reported so far <= the number of boundaries start + k * interval
+   that have passed at the latest clock reading.  fire_v / latch_v are the value part of _dispatch_timers_run's fire and
+   of the latch: C11_count_projection_latch, C11_count_projection_fire *)
+Theorem C11_count_bound : forall start itv, 1 <= start -> 1 <= itv < INT64_MAX ->
+  forall dl0 l, 0 <= dl0 < T64 -> tevs_ok (start, dl0, itv, 0, 0, 0) l ->
+  let '(_, total, m) := play (start, dl0, itv, 0, 0, 0) l in
+  0 <= total <= Z.max 0 ((m - start) / itv + 1).
+Proof. exact count_bound_multi. Qed.
+Print Assumptions C11_count_bound.
+Theorem C11_count_projection_latch : forall st t now,
+  vals_of (tm (fst (latch st t now)) t) = fst (latch_v (vals_of (tm st t)) now) /\
+  snd (latch st t now) = snd (latch_v (vals_of (tm st t)) now).
+Proof. exact latch_vals. Qed.
+Print Assumptions C11_count_projection_latch.
+Theorem C11_count_projection_fire : forall st tidx now dr,
+  t_after (tm st dr) = false -> t_cfg (tm st dr) = None ->
+  exists b, vals_of (tm (fst (run_step st tidx now dr)) dr) = fire_v (vals_of (tm st dr)) now b.
+Proof. exact run_step_vals. Qed.
+Print Assumptions C11_count_projection_fire.
+
+(* 13. dispatch_source_set_timer: ranges of what _dispatch_timer_config_create hands to the timer, for EVERY start /
+   interval / leeway (decode = what the dispatch_time_t denotes, Model/Time.v, shared with C12): the ranges that
+   compute_missed relies on (1 <= target <= 2^62 - 1, 1 <= interval), the leeway clamp, target on the clock the start
+   was expressed in; a start that denotes no representable time is never armed *)
+Theorem C11_config_ranges : forall k start interval leeway cur_clock,
+  in64 start -> in64 interval -> in64 leeway -> clocks_ok k -> 0 <= cur_clock <= 2 ->
+  let '(clock, tg, dl, itv) :=
+    config_create start interval leeway cur_clock (now_wall k) (now_up k) (now_mono k) in
+  1 <= itv <= INT64_MAX /\ 0 <= dl <= INT64_MAX /\ 0 <= clock <= 2 /\
+  match decode k start with
+  | Forever => never_armed tg
+  | At c v => clock = cnum c /\ tg = v /\ 1 <= tg <= MAXV /\ tg <= dl /\
+              (itv < INT64_MAX -> dl - tg <= itv / 2)
+  end.
+Proof. exact config_spec. Qed.
+Print Assumptions C11_config_ranges.
+
+(* 14. dispatch_after: the timer's target is exactly the time `when` denotes, on the clock it was expressed in (so, with 8,
+   the block is not run before it); an elapsed `when` is a plain dispatch_async; leeway within [1 ms, 60 s]; a `when`
+   that denotes no representable time gives target ~0 with a wrapped deadline and is never armed (behaves as FOREVER) *)
+Theorem C11_dispatch_after : forall k when,
+  in64 when -> clocks_ok k ->
+  let r := dispatch_after_model when (now_wall k) (now_up k) (now_mono k) in
+  match decode k when with
+  | Forever => (when = FOREVER /\ r = AfterNever) \/
+               (when <> FOREVER /\ exists c dl, r = AfterTimer c UINT64_MAX dl /\ never_armed UINT64_MAX)
+  | At c v => if v <=? now k c then r = AfterNow
+              else exists dl, r = AfterTimer (cnum c) v dl /\ v + NSEC_PER_MSEC <= dl <= v + 60 * NSEC_PER_SEC
+  end.
+Proof. exact after_spec. Qed.
+Print Assumptions C11_dispatch_after.
 
 (* non-vacuity: the invariant holds of the empty heap and (by 2) of the heap after three inserts with ties, an update
    and a remove; the run on a concrete state with two due timers and one future timer fires exactly the two *)
@@ -187,5 +288,26 @@ Example C11_nonvacuous :
    let '(st', ev, fin) := timers_run st 0 125 in
    fin = true /\ map (fun '(t, p, _, _) => (t, p)) ev = [(2, 12); (1, 6)] /\
    t_target (tm st' 1) = 130 /\ t_target (tm st' 2) = 132 /\ h_slot (s_heaps st' 0) 0 = 1 /\
-   s_ktimer (fst (program st' 0 125)) 0 = 130).
-Proof. split; [apply Inv_empty|]. split; vm_compute; repeat split; reflexivity. Qed.
+   s_ktimer (fst (program st' 0 125)) 0 = 130) /\
+  (* a valid history of the whole system (hypotheses of 9, 10b, 10c): two timers on two clocks, a manager pass, a handler
+     invocation, a kernel expiry, another pass; at the end timer 1 is armed for 140 and the kernel timer of its clock too *)
+  (let l := [SOp (TNew 1 0); SOp (TCfg 1 0 100 105 10); SOp (TReg 1); SOp (TResume 1);
+             SOp (TNew 2 4); SOp (TCfg 2 1 90 90 7); SOp (TReg 2); SOp (TResume 2);
+             SDrain 4 (fun _ => 125); SOp (TLatch 1 126); SExpire 0; SDrain 4 (fun _ => 131)] in
+   svalid 3 3 init_state l /\
+   let st := fold_left (sstep 3) l init_state in
+   member st 0 1 /\ s_dirty st = false /\ s_harmed st 0 = true /\ s_ktimer st 0 = 140 /\ t_target (tm st 1) = 140) /\
+  (* count bound (12b): fire at 135 (4 boundaries of 100+10k), lagging second fire, latch, fire, latch *)
+  (tevs_ok (100, 105, 10, 0, 0, 0) [EFire 135 true; EFire 150 false; ELatch 171; EFire 200 true; ELatch 200] /\
+   play (100, 105, 10, 0, 0, 0) [EFire 135 true; EFire 150 false; ELatch 171; EFire 200 true; ELatch 200] =
+   (210, 215, 10, 0, 11, 200)).
+Proof.
+  split; [apply Inv_empty|]. split; [vm_compute; repeat split; reflexivity|].
+  split; [vm_compute; repeat split; reflexivity|]. split.
+  - cbv zeta. split.
+    + cbn [svalid sguard guard external].
+      repeat split; try lia; try (vm_compute; congruence); try (vm_compute; reflexivity); try (intros i Hi; unfold T63; lia).
+    + vm_compute. repeat split; congruence.
+  - split; [|vm_compute; reflexivity].
+    cbn [tevs_ok tev_ok tev_now play1 fst]. vm_compute. intuition congruence.
+Qed.
